@@ -75,10 +75,14 @@ struct Case {
     derive_first: bool,
 }
 
-const KINDS: [(&str, usize); 9] = [("named-struct", 2), ("tuple-struct", 2), ("unit-struct", 0), ("enum", 6), ("union", 2), ("alias", 0), ("const", 0), ("generic-struct", 2), ("generic-enum", 3)];
+const KINDS: [(&str, usize); 15] = [
+    ("named-struct", 2), ("tuple-struct", 2), ("unit-struct", 0), ("enum", 6), ("union", 2), ("alias", 0), ("const", 0), ("generic-struct", 2), ("generic-enum", 3),
+    // the same items with other visibilities (the macro sees the visibility tokens before the item keyword)
+    ("alias-pub-crate", 0), ("alias-private", 0), ("alias-generic-pub-super", 0), ("const-pub-crate", 0), ("const-pub-in-path", 0), ("static-like-const-private", 0),
+];
 
 fn serde_capable(kind: &str) -> bool {
-    !matches!(kind, "union" | "alias" | "const")
+    !(matches!(kind, "union" | "alias" | "const") || kind.starts_with("alias-") || kind.starts_with("const-") || kind.starts_with("static-"))
 }
 
 /// source of one module (`with`: typeshare attributes present)
@@ -124,6 +128,12 @@ fn module_src(c: &Case, with: bool) -> (String, Option<String>) {
         ),
         "union" => (format!("{ts}\n#[verif_dump]\n#[derive(Clone, Copy)]\npub union Subject {{\n    {} pub a: u32,\n    {} pub b: f32,\n}}\n", d(0, "u"), d(1, "u")), None),
         "alias" => (format!("{ts}\n#[verif_dump]\npub type Subject = Vec<u32>;\n"), None),
+        "alias-pub-crate" => (format!("{ts}\n#[verif_dump]\npub(crate) type Subject = Vec<u32>;\n"), None),
+        "alias-private" => (format!("{ts}\n#[verif_dump]\ntype Subject = Vec<u32>;\n"), None),
+        "alias-generic-pub-super" => (format!("{ts}\n#[verif_dump]\npub(super) type Subject<T> = Vec<T>;\n"), None),
+        "const-pub-crate" => (format!("{ts}\n#[verif_dump]\npub(crate) const SUBJECT: u32 = 5;\n"), None),
+        "const-pub-in-path" => (format!("{ts}\n#[verif_dump]\npub(in crate) const SUBJECT: u32 = 5;\n"), None),
+        "static-like-const-private" => (format!("{ts}\n#[verif_dump]\nconst SUBJECT: &str = \"text\";\n"), None),
         "const" => (format!("{ts}\n#[verif_dump]\npub const SUBJECT: u32 = 5;\n"), None),
         "generic-struct" => (
             format!("{head}\n#[serde(bound = \"T: Serialize + serde::de::DeserializeOwned\")]\npub struct Subject<T>\nwhere\n    T: Clone + std::fmt::Debug,\n{{\n    {} pub first: Vec<T>,\n    {} pub second: Option<T>,\n}}\n", d(0, "g"), d(1, "g")),
